@@ -184,6 +184,7 @@ Renamable == [][\A to, from \in Keys :
 
 \* Point refines its kind abstraction (PointKinds, against which executions over arbitrary values are validated)
 PK == INSTANCE PointKinds WITH fieldk <- [x \in DOMAIN fields |-> fields[x].k], tagged <- DOMAIN tags
+TagMetaStr == PK!TagMetaStr          \* the strengthening the inductive proof needed (spec/proofs/PointKindsProof) holds here too
 KindsRefined == [][PK!Step(lastop'.o, lastop'.k, lastop'.k2, lastop'.v.k, lastop'.T)]_<<meta, fields, tags>>
 
 StateRec == [meta |-> meta, fields |-> fields, tags |-> tags, meas |-> meas]
